@@ -2,9 +2,11 @@
 package c12
 
 import (
+	"bytes"
 	"encoding/json"
 	"fmt"
 	"os"
+	"os/exec"
 	"strings"
 	"sync"
 	"testing"
@@ -177,6 +179,27 @@ func TestC12List(t *testing.T) {
 				}
 				t.Fatalf("%s", evid.Sig(sig, "listing reports %+v, blocks in range sum to %+v\n  %s", got, want, ctx))
 			}
+			// the command itself: `goQuery list <iface>` (cmd/goQuery/cmd/list.go) with JSON output, for every fourth range
+			if rapid.IntRange(0, 3).Draw(t, fmt.Sprintf("r%d.cli", r)) == 0 {
+				cmd := exec.Command(execpool.Bin("goquery"), "-d", dir, "-e", "json", "-f", fmt.Sprint(first), "-l", fmt.Sprint(last), "list", ifc)
+				cmd.Env = append(os.Environ(), "TZ="+tz)
+				var stdout, stderr bytes.Buffer
+				cmd.Stdout, cmd.Stderr = &stdout, &stderr
+				cerr := cmd.Run()
+				evid.Class("route:goquery-list-command")
+				if cerr != nil {
+					t.Fatalf("%s", evid.Sig("C12:cli-list-error", "goQuery list failed although the same listing through the library succeeded: %v %s\n  %s", cerr, firstLine(stderr.String()), ctx))
+				}
+				var ms []meta
+				if err := json.Unmarshal(stdout.Bytes(), &ms); err != nil || len(ms) != 1 {
+					t.Fatalf("%s", evid.Sig("C12:cli-list-output", "goQuery list -e json printed %q (%v), want one interface record\n  %s", firstLine(stdout.String()), err, ctx))
+				}
+				m := ms[0]
+				got2 := summary{V4: m.Traffic.V4, V6: m.Traffic.V6, Drops: m.Traffic.Drops, C: model.Counters{BR: m.Counts.BR, BS: m.Counts.BS, PR: m.Counts.PR, PS: m.Counts.PS}}
+				if got2 != want {
+					t.Fatalf("%s", evid.Sig("C12:cli-summary", "goQuery list reports %+v, blocks in range sum to %+v\n  %s", got2, want, ctx))
+				}
+			}
 			// differential: totals of an unconditioned query over the same interface and range
 			q := &qgen.Query{Args: query.Args{Query: "sip,dip,dport,proto", Ifaces: ifc, First: fmt.Sprintf("%d", first), Last: fmt.Sprintf("%d", last),
 				Format: "json", MaxMemPct: 100, NumResults: 1 << 40, DNSResolution: query.DNSResolution{Timeout: time.Second, MaxRows: 25}}}
@@ -190,6 +213,17 @@ func TestC12List(t *testing.T) {
 			}
 		}
 	})
+}
+
+func firstLine(s string) string {
+	s = strings.TrimSpace(s)
+	if i := strings.IndexByte(s, '\n'); i >= 0 {
+		s = s[:i]
+	}
+	if len(s) > 300 {
+		s = s[:300]
+	}
+	return s
 }
 
 func describe(bs []model.Block) string {
